@@ -1,0 +1,25 @@
+//go:build verif
+
+package comet
+
+import "sync/atomic"
+
+// verifPointHandler, when installed by the verification harness, is called at
+// every verifPoint. It may block (directed schedules) or snapshot state (crash
+// images). Only compiled with the build tag "verif".
+var verifPointHandler atomic.Pointer[func(name string)]
+
+// VerifSetPointHandler installs (or, with nil, removes) the handler.
+func VerifSetPointHandler(h func(name string)) {
+	if h == nil {
+		verifPointHandler.Store(nil)
+		return
+	}
+	verifPointHandler.Store(&h)
+}
+
+func verifPoint(name string) {
+	if h := verifPointHandler.Load(); h != nil {
+		(*h)(name)
+	}
+}
